@@ -11,6 +11,7 @@ import J2M.Lex
 import J2M.Header
 import J2M.Cli
 import J2M.Converters
+import J2M.CliArgs
 namespace J2M.Codec
 open Lean (Json)
 
